@@ -193,16 +193,36 @@ func (c *Call) Run(out io.Writer) error {
 			zzvs.Go(func() { fastaio.ReadEncodeAlignment(strings.NewReader(c.Msa), true, ch, cErr, cDone) }, "readersconc")
 			var sb strings.Builder
 			for fin := false; !fin; {
-				switch zzvs.Select("readersconc.sel", false, zzvs.CaseRecv(ch), zzvs.CaseRecv(cErr), zzvs.CaseRecv(cDone)) {
+				which := -1
+				var r fastaio.EncodedFastaRecord
+				var e error
+				if zzvs.Active() {
+					which = zzvs.Select("readersconc.sel", false, zzvs.CaseRecv(ch), zzvs.CaseRecv(cErr), zzvs.CaseRecv(cDone))
+					switch which {
+					case 0:
+						r = <-ch
+					case 1:
+						e = <-cErr
+					case 2:
+						<-cDone
+					}
+				} else { // free-running (race pass)
+					select {
+					case r = <-ch:
+						which = 0
+					case e = <-cErr:
+						which = 1
+					case <-cDone:
+						which = 2
+					}
+				}
+				switch which {
 				case 0:
-					r := <-ch
 					fmt.Fprintf(&sb, "%s:%v;", r.ID, r.Seq)
 				case 1:
-					e := <-cErr
 					sb.WriteString("error " + e.Error())
 					fin = true
 				case 2:
-					<-cDone
 					for len(ch) > 0 {
 						r := <-ch
 						fmt.Fprintf(&sb, "%s:%v;", r.ID, r.Seq)
